@@ -1,5 +1,6 @@
 import CkbVerif.Driver.Util
 import CkbVerif.Model.ReorgReadd
+import CkbVerif.Model.ReorgSubmit
 
 /-! Line-protocol driver for C12 (protocol: harness/n12/src/c12.rs). -/
 namespace CkbVerif.Driver.C12
@@ -86,8 +87,17 @@ def step (s : DSt) (ts : List String) : DSt × String :=
       let r := reorgR s.pool.reverse a
       (s, showList "," ((retain a).map fun t => s!"{t.id}:{if hasId r t.id then 1 else 0}"))
     | none => (s, "bad-op")
+  | ["rstale", id, sp, dp, hd, ou, sz, changed, pst, lv] =>
+    -- `submit_entry` of a paused submission against the pool sent before (`rent`) and the current view (`rargs`)
+    match parseCTx id sp dp hd ou "1" sz, parseNat? changed, parseNat? pst, parseNatList? lv with
+    | some t, some changed, some pst, some lv =>
+      let a := curArgs s
+      let r := submitEntry a lv (if changed != 0 then 1 else 0) 0 pst s.pool.reverse t
+      let l := (r.1.map fun e => (e.id, e.status)).foldr insertSorted []
+      (s, s!"{if r.2 then 1 else 0} {showList "," (l.map fun x => s!"{x.1}:{x.2}")}")
+    | _, _, _, _ => (s, "bad-op")
   | op :: _ =>
-    if ["cfg", "submit", "time", "mine", "fork", "forkx"].contains op then (s, "ok") else (s, "bad-op")
+    if ["cfg", "submit", "psubmit", "prelease", "time", "mine", "fork", "forkx"].contains op then (s, "ok") else (s, "bad-op")
   | _ => (s, "bad-op")
 
 def main (_args : List String) : IO UInt32 := runLines ({} : DSt) step
